@@ -1,2 +1,185 @@
-(* Props/C11.v - placeholder while the proofs are being written *)
-From MV Require Import Analysis.Bounds.
+(* Props/C11.v - C11: facts of declared predicates conform to their declared bounds.
+
+   PARTIAL.  The full statement of the property, for the real checker and every program,
+
+     forall program P with declarations D, forall caller facts E admitted by the
+     declarations of the extensional predicates:
+       analysis.AnalyzeAndCheckBounds(P, ErrorForBoundsMismatch) = no error ->
+       forall fact f stored by engine.EvalProgram(P, E) with a user-declared predicate:
+         builtin.TypeChecker.CheckTypeBounds(f) = no error
+
+   is NOT proved here - and it is false for the code: the model below accepts programs
+   whose least model leaves the declared bounds (findings N92, N93, F7b, F7c, F7f; the
+   witness of N92 is `intersection_underapproximated_refuted`).
+
+   What is proved (`bounds_sound_partial`, `bounds_sound_strata_partial`) is the statement
+   for the model `check_program` of coq/Analysis/Bounds.v, on the fragment
+     - every predicate declared by the user with rows of closed first-order types, no modes;
+     - bodies of atoms, negated atoms, `=`, `!=`; terms: variables, constants (names,
+       strings, numbers, lists, pairs) and fn:list(..); no transform;
+     - the exactness flag of the run is set (second component `true`): the decidable
+       certificates listed in Bounds.v all hold;
+   against the least-model semantics of Datalog/Lfp.v (C01) and the membership judgement
+   `has_type` of Types/Types.v (C12, = TypeHandle.HasType = what CheckTypeBounds applies per
+   argument).  Missing from the fragment, by name: built-in functions typed through function
+   types and unification of type expressions (fn:pair, fn:list:cons, fn:list:get, arithmetic,
+   fn:struct:get, ...), the special typing of :match_field / :match_entry / :match_prefix /
+   :list:member, comparisons, let- and do-transforms, relation types inferred for undeclared
+   predicates, type variables, modes, temporal literals, tagged unions beyond what Types.v
+   expands. *)
+From Coq Require Import List ZArith Bool.
+From MV Require Import Datalog.Syntax Datalog.Interp Datalog.Solve Datalog.Lfp.
+From MV Require Import Analysis.Bounds Analysis.BoundsProofs.
+Import ListNotations.
+Open Scope Z_scope.
+
+(* If every clause and every fact written in the program passes the model checker, with
+   the certificates, then every fact of the least model whose predicate is declared is a
+   member of one declared row - provided the base facts that are not written in the program
+   are (the caller's facts conform to the declarations of the extensional predicates). *)
+Theorem bounds_sound_partial :
+  forall (D : decls) (R : list clause) (init : list fact) (B : fact -> Prop),
+    check_program D R init = Ok (true, true) ->
+    (forall f, B f ->
+       In f init \/
+       match lookup_decl (fst f) D with
+       | Some rows => exists r, In r rows /\ Forall2 (fun t c => T.has_type t (inj c) = true) r (snd f)
+       | None => True
+       end) ->
+    forall f, lfp R B f ->
+      match lookup_decl (fst f) D with
+      | Some rows => exists r, In r rows /\ Forall2 (fun t c => T.has_type t (inj c) = true) r (snd f)
+      | None => True
+      end.
+Proof. exact bounds_sound. Qed.
+Print Assumptions bounds_sound_partial.
+
+(* the same for the stratified least model: any list of layers, lowest first *)
+Theorem bounds_sound_strata_partial :
+  forall (D : decls) (P : list clause) (init : list fact),
+    check_program D P init = Ok (true, true) ->
+    forall (layers : list (list Z)) (B : fact -> Prop),
+    (forall f, B f ->
+       In f init \/
+       match lookup_decl (fst f) D with
+       | Some rows => exists r, In r rows /\ Forall2 (fun t c => T.has_type t (inj c) = true) r (snd f)
+       | None => True
+       end) ->
+    forall f, slfp P layers B f ->
+      match lookup_decl (fst f) D with
+      | Some rows => exists r, In r rows /\ Forall2 (fun t c => T.has_type t (inj c) = true) r (snd f)
+      | None => True
+      end.
+Proof. exact bounds_sound_strata. Qed.
+Print Assumptions bounds_sound_strata_partial.
+
+(* a fact written in the program that passes the unit-clause check is a member of a row *)
+Theorem unit_clause_sound :
+  forall (D : decls) (trie : list T.str) (f : fact),
+    check_fact D trie f = Ok (true, true) ->
+    match lookup_decl (fst f) D with
+    | Some rows => exists r, In r rows /\ Forall2 (fun t c => T.has_type t (inj c) = true) r (snd f)
+    | None => True
+    end.
+Proof. exact check_fact_sound. Qed.
+Print Assumptions unit_clause_sound.
+
+(* the bound the checker assigns to a constant contains the constant (boundOfArg) *)
+Theorem bound_of_const_sound :
+  forall (trie : list T.str) (c : const) (t : T.ty),
+    bconst trie c = Ok (t, true) -> T.has_type t (inj c) = true.
+Proof. exact bconst_sound. Qed.
+Print Assumptions bound_of_const_sound.
+
+(* the disjointness certificate is sound *)
+Theorem disjoint_certificate_sound :
+  forall (a b : T.ty) (c : T.const),
+    disjointb a b = true -> T.has_type a c = true -> T.has_type b c = true -> False.
+Proof. exact disjointb_sound. Qed.
+Print Assumptions disjoint_certificate_sound.
+
+(* ---- non-vacuity: a program with two declared rows, a join, a negation, an equality,
+   an inequality and a list constructor in the head passes with the flag set *)
+Definition ex_name (l : list Z) := T.TConst (47 :: l).      (* "/..." *)
+Definition ex_D : decls :=
+  [ (0, [[t_number]; [t_string]]);                          (* Decl p0(X) bound [/number] bound [/string]. *)
+    (1, [[t_number; ex_name [97]]]);                        (* Decl p1(X,Y) bound [/number, /a]. *)
+    (2, [[t_number]]);                                      (* Decl p2(X) bound [/number]. *)
+    (3, [[T.TList t_number; t_name]]) ].                     (* Decl p3(X,Y) bound [fn:List(/number), /name]. *)
+Definition ex_R : list clause :=
+  [ mkClause (mkAtom 3 [TApp FList [TVar 0; TConst (CNum 7)]; TVar 1])
+             [PAtom (mkAtom 0 [TVar 0]); PAtom (mkAtom 1 [TVar 0; TVar 1]); PNeg (mkAtom 2 [TVar 0]);
+              PEq (TVar 2) (TVar 0); PIneq (TVar 2) (TConst (CNum 3))] [] ].
+Definition ex_init : list fact := [ (0, [CNum 1]); (0, [CStr [120]]); (1, [CNum 1; CName [47; 97; 47; 120]]) ].
+
+Example hypotheses_satisfiable : check_program ex_D ex_R ex_init = Ok (true, true).
+Proof. vm_compute. reflexivity. Qed.
+
+Example ex_derives :
+  lfp ex_R (fun f => In f ex_init) (3, [CCons (CNum 1) (CCons (CNum 7) CNil); CName [47; 97; 47; 120]]).
+Proof.
+  eapply lfp_step with (I := ex_init) (c := hd (mkClause (mkAtom 0 []) [] []) ex_R).
+  - intros g Hg. apply lfp_base. exact Hg.
+  - left. reflexivity.
+  - exists [(2, CNum 1); (1, CName [47; 97; 47; 120]); (0, CNum 1)]. split.
+    + eapply sat_cons.
+      { eapply holds_atom with (f := (0, [CNum 1])); [reflexivity|left; reflexivity|reflexivity]. }
+      eapply sat_cons.
+      { eapply holds_atom with (f := (1, [CNum 1; CName [47; 97; 47; 120]]));
+          [reflexivity|right; right; left; reflexivity|reflexivity]. }
+      eapply sat_cons.
+      { eapply holds_neg; [reflexivity|]. intros f Hf. destruct Hf as [Hf|[Hf|[Hf|[]]]]; subst; reflexivity. }
+      eapply sat_cons.
+      { eapply holds_pure; [reflexivity|left; reflexivity]. }
+      eapply sat_cons.
+      { eapply holds_pure; [reflexivity|left; reflexivity]. }
+      apply sat_nil.
+    + reflexivity.
+Qed.
+
+(* ---- refutation witnesses *)
+(* F7a (fixed): with the conformance judgement of the unchanged code the unit clause p(1)
+   passed against Decl p(X) bound [/name]; 1 is not a member of /name. *)
+Theorem f7a_unit_clause_refuted :
+  T.set_conforms T.Legacy t_number t_name = Some true /\
+  T.set_conforms T.Fixed t_number t_name = Some false /\
+  T.has_type t_name (inj (CNum 1)) = false.
+Proof. vm_compute. repeat split; reflexivity. Qed.
+
+(* N92 (known finding): Decl p0(X) bound [fn:List(/number)] bound [/string].
+   Decl p1(X) bound [fn:List(/string)] bound [/string].  Decl p2(X) bound [/string].
+   p2(X) :- p0(X), p1(X).   The checker (model and code) accepts: the two list rows are
+   judged to have an empty intersection and that combination is dropped.  The flag is not
+   set, and the least model over p0([]), p1([]) contains p2([]), which is no member of
+   /string. *)
+Definition n92_D : decls :=
+  [ (0, [[T.TList t_number]; [t_string]]); (1, [[T.TList t_string]; [t_string]]); (2, [[t_string]]) ].
+Definition n92_R : list clause :=
+  [ mkClause (mkAtom 2 [TVar 0]) [PAtom (mkAtom 0 [TVar 0]); PAtom (mkAtom 1 [TVar 0])] [] ].
+Definition n92_B : fact -> Prop := fun f => In f [ (0, [CNil]); (1, [CNil]) ].
+
+Theorem intersection_underapproximated_refuted :
+  check_program n92_D n92_R [] = Ok (true, false) /\
+  (forall f, n92_B f ->
+     match lookup_decl (fst f) n92_D with
+     | Some rows => exists r, In r rows /\ Forall2 (fun t c => T.has_type t (inj c) = true) r (snd f)
+     | None => True
+     end) /\
+  lfp n92_R n92_B (2, [CNil]) /\
+  ~ (exists r, In r [[t_string]] /\ Forall2 (fun t c => T.has_type t (inj c) = true) r [CNil]).
+Proof.
+  split; [vm_compute; reflexivity|]. split; [|split].
+  - intros f [Hf|[Hf|[]]]; subst; simpl.
+    + exists [T.TList t_number]. split; [left; reflexivity|]. constructor; [reflexivity|constructor].
+    + exists [T.TList t_string]. split; [left; reflexivity|]. constructor; [reflexivity|constructor].
+  - eapply lfp_step with (I := [ (0, [CNil]); (1, [CNil]) ]) (c := hd (mkClause (mkAtom 0 []) [] []) n92_R).
+    + intros g Hg. apply lfp_base. exact Hg.
+    + left. reflexivity.
+    + exists [(0, CNil)]. split; [|reflexivity].
+      eapply sat_cons.
+      { eapply holds_atom with (f := (0, [CNil])); [reflexivity|left; reflexivity|reflexivity]. }
+      eapply sat_cons.
+      { eapply holds_atom with (f := (1, [CNil])); [reflexivity|right; left; reflexivity|reflexivity]. }
+      apply sat_nil.
+  - intros [r [[Hr|[]] F]]. subst r. inversion F; subst. discriminate.
+Qed.
